@@ -205,6 +205,166 @@ def tag_name_table(repo, cflags):
     return table, default
 
 
+# ------------------------------------------------------------------ security description routines
+SEC_FUNCS = ["libwifi_get_security_type", "libwifi_get_group_ciphers", "libwifi_get_pairwise_ciphers",
+             "libwifi_get_auth_key_suites"]
+
+
+def sec_table(fn):
+    """ordered [(flag value, name)] of `if (bss->encryption_info & FLAG) _libwifi_add_sec_item(.., "NAME")`,
+    and the string written when encryption_info == 0; None when the body has another shape"""
+    body = [c for c in fn["inner"] if c.get("kind") == "CompoundStmt"][0]
+    table, none_str = [], None
+    for st in body.get("inner", []):
+        if st.get("kind") != "IfStmt":
+            continue
+        cond = strip(st["inner"][0])
+        then = st["inner"][1]
+        calls = [n for n in walk(then) if n.get("kind") == "CallExpr"]
+        if cond.get("kind") == "BinaryOperator" and cond.get("opcode") == "==":
+            # encryption_info == 0  ->  snprintf(buf, LEN, "None"); return;
+            if const_value(cond["inner"][1]) != 0 or len(calls) != 1:
+                return None
+            strs = [string_literal(a) for a in calls[0]["inner"][1:]]
+            strs = [x for x in strs if x is not None]
+            if len(strs) != 1 or not any(n.get("kind") == "ReturnStmt" for n in walk(then)):
+                return None
+            none_str = strs[0]
+        elif cond.get("kind") == "BinaryOperator" and cond.get("opcode") == "&":
+            a, b = cond["inner"]
+            v = const_value(b)
+            if v is None:
+                v = const_value(a)
+            if v is None or len(calls) != 1:
+                return None
+            callee = strip(calls[0]["inner"][0])
+            if callee.get("referencedDecl", {}).get("name") != "_libwifi_add_sec_item":
+                return None
+            strs = [string_literal(x) for x in calls[0]["inner"][1:]]
+            strs = [x for x in strs if x is not None]
+            if len(strs) != 1:
+                return None
+            table.append((v, strs[0]))
+        else:
+            return None
+    if none_str is None:
+        return None
+    return table, none_str
+
+
+def sec_tables(repo, cflags):
+    path = os.path.join(repo, "src/libwifi/parse/misc/security.c")
+    docs = ast_of(cflags, path, "libwifi_get_")
+    out = []
+    for f in SEC_FUNCS:
+        fn = find_function(docs, f)
+        t = sec_table(fn) if fn is not None else None
+        out.append((f, t))
+    # the separator written by the append helper
+    sep = None
+    fn = find_function(ast_of(cflags, path, "_libwifi_add_sec_item"), "_libwifi_add_sec_item")
+    if fn is not None:
+        lits = [string_literal(n) for n in walk(fn) if n.get("kind") == "StringLiteral"]
+        lits = [x for x in lits if x not in (None, "%s")]
+        if lits and all(x == lits[0] for x in lits):
+            sep = lits[0]
+    return out, sep
+
+
+def bytes_list(s):
+    return "[" + "; ".join(str(b) for b in s.encode("latin1")) + "]"
+
+
+# ------------------------------------------------------------------ QoS subtype set of libwifi_get_wifi_frame
+def qos_subtypes(repo, cflags):
+    """case labels of the switch over frame_control->subtype whose body sets LIBWIFI_FLAGS_IS_QOS"""
+    path = os.path.join(repo, "src/libwifi/core/frame/frame.c")
+    fn = find_function(ast_of(cflags, path, "libwifi_get_wifi_frame"), "libwifi_get_wifi_frame")
+    if fn is None:
+        return None
+    res = None
+    for sw in walk(fn):
+        if sw.get("kind") != "SwitchStmt":
+            continue
+        cond = sw["inner"][0]
+        if not any(n.get("kind") == "MemberExpr" and n.get("name") == "subtype" for n in walk(cond)):
+            continue
+        if res is not None:
+            return None            # more than one switch over the subtype: shape not recognised
+        vals = []
+        for n in walk(sw):
+            if n.get("kind") == "CaseStmt":
+                v = const_value(n["inner"][0])
+                if v is None:
+                    return None
+                vals.append(v)
+        # every case must fall through to the single statement that sets the QoS flag
+        assigns = [n for n in walk(sw) if n.get("kind") == "CompoundAssignOperator" and n.get("opcode") == "|="]
+        if len(assigns) != 1 or any(n.get("kind") == "DefaultStmt" for n in walk(sw)):
+            return None
+        res = vals
+    return res
+
+
+# ------------------------------------------------------------------ CRC constants
+def crc_consts(repo, cflags):
+    """(init, poly, nbits, final_xor) of libwifi_crc32, or None when the function has another shape"""
+    path = os.path.join(repo, "src/libwifi/core/frame/crc.c")
+    fn = find_function(ast_of(cflags, path, "libwifi_crc32"), "libwifi_crc32")
+    if fn is None:
+        return None
+    init = poly = nbits = final = None
+
+    def refname(n):
+        m = strip(n)
+        if m.get("kind") == "DeclRefExpr":
+            return m.get("referencedDecl", {}).get("name")
+        return None
+    for n in walk(fn):
+        k = n.get("kind")
+        if k == "BinaryOperator" and n.get("opcode") == "=" and refname(n["inner"][0]) == "crc":
+            v = const_value(n["inner"][1])
+            if v is not None and strip(n["inner"][1]).get("kind") == "IntegerLiteral" and init is None:
+                init = v
+        if k == "BinaryOperator" and n.get("opcode") == "&":
+            a, b = n["inner"]
+            for x, y in ((a, b), (b, a)):
+                if refname(y) == "mask" and strip(x).get("kind") == "IntegerLiteral":
+                    poly = const_value(x)
+        if k == "ForStmt":
+            parts = n.get("inner", [])
+            try:
+                ini, cond, inc = parts[0], parts[2], parts[3]
+                a = const_value(strip(ini)["inner"][1])
+                c = strip(cond)
+                b = const_value(c["inner"][1])
+                i = strip(inc)
+                if c.get("opcode") == ">=" and i.get("kind") == "UnaryOperator" and i.get("opcode") == "--":
+                    nbits = a - b + 1
+                elif c.get("opcode") == ">" and i.get("opcode") == "--":
+                    nbits = a - b
+                elif c.get("opcode") == "<" and i.get("opcode") == "++":
+                    nbits = b - a
+                elif c.get("opcode") == "<=" and i.get("opcode") == "++":
+                    nbits = b - a + 1
+            except Exception:
+                pass
+        if k == "ReturnStmt" and n.get("inner"):
+            e = strip(n["inner"][0])
+            if e.get("kind") == "UnaryOperator" and e.get("opcode") == "~" and refname(e["inner"][0]) == "crc":
+                final = 0xFFFFFFFF
+            elif e.get("kind") == "BinaryOperator" and e.get("opcode") == "^":
+                a, b = e["inner"]
+                for x, y in ((a, b), (b, a)):
+                    if refname(x) == "crc" and const_value(y) is not None:
+                        final = const_value(y)
+            elif refname(e) == "crc":
+                final = 0
+    if None in (init, poly, nbits, final):
+        return None
+    return init, poly, nbits, final
+
+
 HDR = ["(* GENERATED by tools/translate.py (astq) - do not edit *)",
        "From Coq Require Import List ZArith String.", "Import ListNotations.",
        "Local Open Scope Z_scope.", "Local Open Scope string_scope.", ""]
@@ -218,6 +378,14 @@ def emit_all(repo, gen, cflags, write_if_changed, build, env=None):
     o = list(HDR)
     o.append("From LW Require Import Base.Expr.")
     o.append("Definition epoch_expr : texpr := %s." % epoch_expr(repo, cflags))
+    cc = crc_consts(repo, cflags)
+    if cc is None:
+        o.append("(* libwifi_crc32 no longer has the shift/mask shape the translator recognises *)")
+        cc = (0, 0, 0, 0)
+        o.append("Definition crc_shape_ok : bool := false.")
+    else:
+        o.append("Definition crc_shape_ok : bool := true.")
+    o.append("Definition crc_init : Z := %d.\nDefinition crc_poly : Z := %d.\nDefinition crc_nbits : Z := %d.\nDefinition crc_final : Z := %d." % cc)
     if write_if_changed(os.path.join(gen, "Arith.v"), "\n".join(o) + "\n"):
         changed.append("Arith.v")
     # Tables.v
@@ -235,6 +403,23 @@ def emit_all(repo, gen, cflags, write_if_changed, build, env=None):
         o.append(";\n".join("  (%s, %s)" % (zlit(v), coq_str(s)) for v, s in table))
         o.append("].")
         o.append("Definition tag_name_default : string := %s." % coq_str(default))
+    q = qos_subtypes(repo, cflags)
+    o.append("Definition qos_subtypes_ok : bool := %s." % ("true" if q is not None else "false"))
+    o.append("Definition qos_subtypes : list Z := [%s]." % "; ".join(zlit(v) for v in (q or [])))
+    st, sep = sec_tables(repo, cflags)
+    for f, t in st:
+        short = f.replace("libwifi_get_", "")
+        if t is None or sep is None:
+            o.append("Definition sec_ok_%s : bool := false." % short)
+            o.append("Definition sec_table_%s : list (Z * list Z) := []." % short)
+            o.append("Definition sec_none_%s : list Z := []." % short)
+        else:
+            o.append("Definition sec_ok_%s : bool := true." % short)
+            o.append("Definition sec_table_%s : list (Z * list Z) := [" % short)
+            o.append(";\n".join("  (%d, %s) (* %s *)" % (v, bytes_list(n), n) for v, n in t[0]))
+            o.append("].")
+            o.append("Definition sec_none_%s : list Z := %s." % (short, bytes_list(t[1])))
+    o.append("Definition sec_separator : list Z := %s." % bytes_list(sep or ""))
     if write_if_changed(os.path.join(gen, "Tables.v"), "\n".join(o) + "\n"):
         changed.append("Tables.v")
     return changed
